@@ -821,3 +821,102 @@ def ctor_copies(rep, prog, ctor_qname, attrs=None, rule="CTOR.copy"):
             rep.ok(rule, w, "self.%s is the object's own value" % attr)
     if not seen:
         rep.unk(rule, fwhere(f), "no store into self.%s found in %s" % ("/".join(attrs) if attrs else "*", f.name))
+
+
+def chain_test_rules(rep, prog, rule="CHAIN.test"):
+    """mec / imec answer from the closed-form enumeration `chain_graph_MEC(len(A))` when `is_chain_graph(A)`: that enumeration is
+    the class of *the* chain 0 -> 1 -> ... -> p-1, so the test must single out that labelled graph.  Decided: the test is the
+    comparison with chain_graph(len(A)) (of A or of its zero pattern) -> ok; the test is invariant under relabelling the nodes
+    (only sums / counts / degree vectors compared with constants) -> violation, because any directed path through all nodes
+    then takes the shortcut and receives the class of another graph; anything else is not decided."""
+    from ..pattern import chain_test_is_exact
+    q = U + "is_chain_graph"
+    f = need(prog, q)
+    if chain_test_is_exact(prog):
+        rep.ok(rule, fwhere(f), "is_chain_graph(A) is the comparison of A with chain_graph(len(A))")
+        return
+    S = Sym(prog, inline=inline_helpers(prog, "sempler.utils"))
+    try:
+        summ, _ = run_function(S, f)
+    except Inconclusive as e:
+        rep.unk(rule, fwhere(f), "symbolic evaluation left the modelled fragment: %s" % e.why)
+        return
+    A = ("param", "A")
+    t = T(summ.ret)
+    lens = [("ext", "len", (A,), ()), ("sub", ("attr", A, "shape"), ("const", 0)), ("sub", ("attr", A, "shape"), ("const", 1))]
+
+    def pat(x):
+        # A or its zero pattern
+        while isinstance(x, tuple) and x and ((x[0] == "method" and x[2] in ("astype", "copy")) or (x[0] == "ext" and x[1] in ("numpy.asarray", "numpy.array", "bool") and len(x[2]) == 1)):
+            x = x[1] if x[0] == "method" else x[2][0]
+        if isinstance(x, tuple) and len(x) == 4 and x[0] == "cmp" and x[1] == "!=" and is_const(x[3], 0):
+            x = x[2]
+        return x == A
+
+    def chain(x):
+        return isinstance(x, tuple) and len(x) == 4 and x[0] == "call" and x[1] == U + "chain_graph" and x[2] and x[2][0] in lens
+    u = t
+    while isinstance(u, tuple) and u and u[0] == "ext" and u[1] in ("bool", "numpy.all") and len(u[2]) == 1:
+        u = u[2][0]
+    if isinstance(u, tuple) and u and u[0] == "method" and u[2] == "all":
+        u = u[1]
+    if isinstance(u, tuple) and len(u) == 4 and ((u[0] == "cmp" and u[1] == "==") or (u[0] == "ext" and u[1] == "numpy.array_equal" and len(u[2]) == 2)):
+        a_, b_ = (u[2], u[3]) if u[0] == "cmp" else u[2]
+        if (pat(a_) and chain(b_)) or (pat(b_) and chain(a_)):
+            rep.ok(rule, fwhere(f), "is_chain_graph(A) compares the zero pattern of A with chain_graph(len(A))")
+            return
+
+    RED = ("sum", "any", "all", "max", "min", "mean", "prod")
+    EL_EXT = ("numpy.abs", "numpy.absolute", "numpy.logical_and", "numpy.logical_or", "numpy.logical_not", "bool", "int", "numpy.asarray", "numpy.array", "abs")
+
+    def kind(x):
+        """'mat' / 'vec' / 'sc' when x is equivariant under simultaneous row/column permutation of A (invariant for scalars), else None"""
+        if x == A:
+            return "mat"
+        if not isinstance(x, tuple) or not x:
+            return None
+        if x[0] == "const" or x in lens:
+            return "sc"
+        if x[0] == "attr" and x[2] == "T":
+            return kind(x[1])
+        if x[0] == "cmp" or x[0] == "binop":
+            ks = [kind(x[2]), kind(x[3])]
+            if None in ks:
+                return None
+            return "mat" if "mat" in ks else "vec" if "vec" in ks else "sc"
+        if x[0] == "bool":
+            ks = [kind(y) for y in x[2]]
+            return None if None in ks else ("mat" if "mat" in ks else "vec" if "vec" in ks else "sc")
+        if x[0] == "not" or (x[0] == "unary"):
+            return kind(x[-1])
+        if x[0] == "method" and x[2] in ("astype", "copy"):
+            return kind(x[1])
+        if x[0] == "method" and x[2] in RED:
+            k = kind(x[1])
+            if k is None:
+                return None
+            axis = dict(x[4]).get("axis") if len(x) > 4 else None
+            if axis is None and len(x) > 3 and x[3]:
+                axis = x[3][0]
+            if k == "mat" and axis is not None:
+                return "vec" if axis in (("const", 0), ("const", 1), ("const", -1)) else None
+            return "sc"
+        if x[0] == "ext" and x[1] in ("numpy.sum", "numpy.count_nonzero", "numpy.any", "numpy.all", "numpy.max", "numpy.min") and x[2]:
+            k = kind(x[2][0])
+            if k is None:
+                return None
+            axis = dict(x[3]).get("axis") or (x[2][1] if len(x[2]) > 1 else None)
+            if k == "mat" and axis is not None:
+                return "vec" if axis in (("const", 0), ("const", 1), ("const", -1)) else None
+            return "sc"
+        if x[0] == "ext" and x[1] in EL_EXT and x[2]:
+            ks = [kind(y) for y in x[2]]
+            return None if None in ks else ("mat" if "mat" in ks else "vec" if "vec" in ks else "sc")
+        if x[0] == "ext" and x[1] == "len" and len(x[2]) == 1 and kind(x[2][0]) in ("mat", "vec"):
+            return "sc"
+        return None
+    if kind(t) == "sc":
+        rep.bad(rule, fwhere(f), "is_chain_graph(A) = %s reads A only through sums / counts that do not change when the nodes are relabelled: every directed path "
+                "through all nodes (e.g. 0 -> 2 -> 1) takes the shortcut and is answered with the class of the chain 0 -> 1 -> ... -> p-1" % fmt(t)[:120])
+    else:
+        rep.unk(rule, fwhere(f), "is_chain_graph(A) = %s is not the comparison with chain_graph(len(A)); whether it accepts exactly that graph is not decided" % fmt(t)[:120])
